@@ -3,17 +3,34 @@ From V Require Import Base.Text C20.Model.
 Open Scope N_scope.
 Definition tmp_of (p : path) : path := p + 1.
 Definition bk_of (p : path) : path := p + 2.
-Definition init (orig : text) : fsstate := fun q => if q =? 1 then Some orig else None.
-Definition observe (s : fsstate) : option text * option text * option text := (s 1, s 2, s 3).
+(* pre-state of the siblings: 0 absent, 1 stale file (text [120]), 2 link to FILE, 3 link to another file (path 9), 4 directory *)
+Definition pre_node (k : N) : option node :=
+  match k with 1 => Some (File [120]) | 2 => Some (Link 1) | 3 => Some (Link 9) | 4 => Some Dir | _ => None end.
+Definition init_pre (orig : text) (tmp_k bk_k : N) : fsstate :=
+  fun q => if q =? 1 then Some (File orig) else if q =? 2 then pre_node tmp_k else if q =? 3 then pre_node bk_k
+           else if q =? 9 then Some (File [112]) else None.
+Definition init (orig : text) : fsstate := init_pre orig 0 0.
+(* what a directory listing shows: Some text for a readable file (links followed), None for absent / directory / dangling *)
+Definition observe (s : fsstate) : option text * option text * option text := (read s 1, read s 2, read s 3).
 (* state after n complete operations, the next one interrupted after k chars (started) or not begun *)
 Definition run_stopped (orig fmt : text) (n k : N) (started : bool) :=
   match stopped_at (init orig) (backup_ops tmp_of bk_of 1 orig fmt) (N.to_nat n) (N.to_nat k) started with
   | Some s => Some (observe s)
   | None => None
   end.
-(* the operation sequence as (0 write | 1 rename, src-or-target, dst) *)
+(* a whole run from a pre-state of the siblings: (did every operation succeed, file, tmp, bk, the other file) where the
+   state shown is the final one, or the one the failing operation found *)
+Fixpoint run_until_fail (s : fsstate) (ops : list op) : bool * fsstate :=
+  match ops with
+  | [] => (true, s)
+  | o :: ops' => match exec s o with Some s' => run_until_fail s' ops' | None => (false, s) end
+  end.
+Definition run_pre (orig fmt : text) (tmp_k bk_k : N) :=
+  let r := run_until_fail (init_pre orig tmp_k bk_k) (backup_ops tmp_of bk_of 1 orig fmt) in
+  (fst r, observe (snd r), read (snd r) 9).
+(* the operation sequence as (0 write | 1 rename | 2 remove, src-or-target, dst) *)
 Definition enc_op (o : op) : N * N * N :=
-  match o with Write p _ => (0, p, 0) | Rename a b => (1, a, b) end.
+  match o with Write p _ => (0, p, 0) | Rename a b => (1, a, b) | Remove p => (2, p, 0) end.
 Definition run_ops (orig fmt : text) := map enc_op (backup_ops tmp_of bk_of 1 orig fmt).
 
 (* the sibling names for a file given as stem and extension (None = no extension): (FILE.tmp-name, FILE.bk-name) as written *)
